@@ -245,6 +245,7 @@ func (n *node) RouteSendEvent(from gen.PID, token gen.Ref, options gen.MessageOp
 
 	if from.Node == n.name {
 		// local producer. check if sender is allowed to send this event
+		lib.VerifPoint("event.lookup", message.Event)
 		value, found := n.events.Load(message.Event)
 		if found == false {
 			return gen.ErrEventUnknown
@@ -254,11 +255,13 @@ func (n *node) RouteSendEvent(from gen.PID, token gen.Ref, options gen.MessageOp
 			return gen.ErrEventOwner
 		}
 
+		lib.VerifPoint("event.buffer", message.Event)
 		if event.last != nil {
 			event.last.Push(message)
 		}
 	}
 
+	lib.VerifPoint("event.fanout", message.Event)
 	consumers := n.targetManager.GetConsumersForTarget(message.Event)
 	remote := make(map[gen.Atom]bool)
 	// local delivery
@@ -575,9 +578,11 @@ func (n *node) RouteLinkPID(pid gen.PID, target gen.PID) error {
 
 	if n.name == target.Node {
 		// local target
+		lib.VerifPoint("link.check", target)
 		if _, exist := n.processes.Load(target); exist == false {
 			return gen.ErrProcessUnknown
 		}
+		lib.VerifPoint("link.add", target)
 		return n.targetManager.AddLink(pid, target)
 	}
 
@@ -605,9 +610,11 @@ func (n *node) RouteUnlinkPID(pid gen.PID, target gen.PID) error {
 
 	if n.name == target.Node {
 		// local target
+		lib.VerifPoint("unlink.check", target)
 		if _, exist := n.processes.Load(target); exist == false {
 			return gen.ErrProcessUnknown
 		}
+		lib.VerifPoint("unlink.remove", target)
 		return n.targetManager.RemoveLink(pid, target)
 	}
 
@@ -635,9 +642,11 @@ func (n *node) RouteLinkProcessID(pid gen.PID, target gen.ProcessID) error {
 
 	if n.name == target.Node {
 		// local target
+		lib.VerifPoint("link.check", target)
 		if _, exist := n.names.Load(target.Name); exist == false {
 			return gen.ErrProcessUnknown
 		}
+		lib.VerifPoint("link.add", target)
 		return n.targetManager.AddLink(pid, target)
 	}
 
@@ -663,9 +672,11 @@ func (n *node) RouteUnlinkProcessID(pid gen.PID, target gen.ProcessID) error {
 	}
 	if n.name == target.Node {
 		// local target
+		lib.VerifPoint("unlink.check", target)
 		if _, exist := n.names.Load(target.Name); exist == false {
 			return gen.ErrProcessUnknown
 		}
+		lib.VerifPoint("unlink.remove", target)
 		return n.targetManager.RemoveLink(pid, target)
 	}
 
@@ -692,9 +703,11 @@ func (n *node) RouteLinkAlias(pid gen.PID, target gen.Alias) error {
 
 	if n.name == target.Node {
 		// local target
+		lib.VerifPoint("link.check", target)
 		if _, exist := n.aliases.Load(target); exist == false {
 			return gen.ErrAliasUnknown
 		}
+		lib.VerifPoint("link.add", target)
 		return n.targetManager.AddLink(pid, target)
 	}
 
@@ -722,9 +735,11 @@ func (n *node) RouteUnlinkAlias(pid gen.PID, target gen.Alias) error {
 
 	if n.name == target.Node {
 		// local target
+		lib.VerifPoint("unlink.check", target)
 		if _, exist := n.aliases.Load(target); exist == false {
 			return gen.ErrAliasUnknown
 		}
+		lib.VerifPoint("unlink.remove", target)
 		return n.targetManager.RemoveLink(pid, target)
 	}
 
@@ -754,16 +769,19 @@ func (n *node) RouteLinkEvent(pid gen.PID, target gen.Event) ([]gen.MessageEvent
 	if n.name == target.Node {
 		var lastEventMessages []gen.MessageEvent
 		// local target
+		lib.VerifPoint("link.check", target)
 		value, exist := n.events.Load(target)
 		if exist == false {
 			return nil, gen.ErrEventUnknown
 		}
 
 		event := value.(*eventOwner)
+		lib.VerifPoint("link.add", target)
 		if err := n.targetManager.AddLink(pid, target); err != nil {
 			return nil, err
 		}
 
+		lib.VerifPoint("sub.snapshot", target)
 		if event.last != nil {
 			// load last N events
 			item := event.last.Item()
@@ -777,6 +795,7 @@ func (n *node) RouteLinkEvent(pid gen.PID, target gen.Event) ([]gen.MessageEvent
 			}
 		}
 
+		lib.VerifPoint("sub.count", target)
 		c := atomic.AddInt32(&event.consumers, 1)
 		if event.notify == false || c > 1 {
 			return lastEventMessages, nil
@@ -821,15 +840,18 @@ func (n *node) RouteUnlinkEvent(pid gen.PID, target gen.Event) error {
 
 	if n.name == target.Node {
 		// local target
+		lib.VerifPoint("unlink.check", target)
 		value, exist := n.events.Load(target)
 		if exist == false {
 			return gen.ErrEventUnknown
 		}
 		event := value.(*eventOwner)
+		lib.VerifPoint("unlink.remove", target)
 		if err := n.targetManager.RemoveLink(pid, target); err != nil {
 			return err
 		}
 
+		lib.VerifPoint("sub.count", target)
 		c := atomic.AddInt32(&event.consumers, -1)
 		if event.notify == false || c > 0 {
 			return nil
@@ -869,6 +891,7 @@ func (n *node) RouteMonitorPID(pid gen.PID, target gen.PID) error {
 
 	if n.name == target.Node {
 		// local target
+		lib.VerifPoint("link.check", target)
 		if v, exist := n.processes.Load(target); exist == false {
 			return gen.ErrProcessUnknown
 		} else {
@@ -877,6 +900,7 @@ func (n *node) RouteMonitorPID(pid gen.PID, target gen.PID) error {
 				return gen.ErrProcessTerminated
 			}
 		}
+		lib.VerifPoint("link.add", target)
 		return n.targetManager.AddMonitor(pid, target)
 	}
 
@@ -903,9 +927,11 @@ func (n *node) RouteDemonitorPID(pid gen.PID, target gen.PID) error {
 
 	if n.name == target.Node {
 		// local target
+		lib.VerifPoint("unlink.check", target)
 		if _, exist := n.processes.Load(target); exist == false {
 			return gen.ErrProcessUnknown
 		}
+		lib.VerifPoint("unlink.remove", target)
 		return n.targetManager.RemoveMonitor(pid, target)
 	}
 
@@ -932,6 +958,7 @@ func (n *node) RouteMonitorProcessID(pid gen.PID, target gen.ProcessID) error {
 
 	if n.name == target.Node {
 		// local target
+		lib.VerifPoint("link.check", target)
 		if v, exist := n.names.Load(target.Name); exist == false {
 			return gen.ErrProcessUnknown
 		} else {
@@ -940,6 +967,7 @@ func (n *node) RouteMonitorProcessID(pid gen.PID, target gen.ProcessID) error {
 				return gen.ErrProcessTerminated
 			}
 		}
+		lib.VerifPoint("link.add", target)
 		return n.targetManager.AddMonitor(pid, target)
 	}
 
@@ -966,9 +994,11 @@ func (n *node) RouteDemonitorProcessID(pid gen.PID, target gen.ProcessID) error 
 
 	if n.name == target.Node {
 		// local target
+		lib.VerifPoint("unlink.check", target)
 		if _, exist := n.names.Load(target.Name); exist == false {
 			return gen.ErrProcessUnknown
 		}
+		lib.VerifPoint("unlink.remove", target)
 		return n.targetManager.RemoveMonitor(pid, target)
 	}
 
@@ -996,9 +1026,11 @@ func (n *node) RouteMonitorAlias(pid gen.PID, target gen.Alias) error {
 
 	if n.name == target.Node {
 		// local target
+		lib.VerifPoint("link.check", target)
 		if _, exist := n.aliases.Load(target); exist == false {
 			return gen.ErrAliasUnknown
 		}
+		lib.VerifPoint("link.add", target)
 		return n.targetManager.AddMonitor(pid, target)
 	}
 
@@ -1026,9 +1058,11 @@ func (n *node) RouteDemonitorAlias(pid gen.PID, target gen.Alias) error {
 
 	if n.name == target.Node {
 		// local target
+		lib.VerifPoint("unlink.check", target)
 		if _, exist := n.aliases.Load(target); exist == false {
 			return gen.ErrAliasUnknown
 		}
+		lib.VerifPoint("unlink.remove", target)
 		return n.targetManager.RemoveMonitor(pid, target)
 	}
 
@@ -1058,15 +1092,18 @@ func (n *node) RouteMonitorEvent(pid gen.PID, target gen.Event) ([]gen.MessageEv
 	if n.name == target.Node {
 		var lastEventMessages []gen.MessageEvent
 		// local target
+		lib.VerifPoint("link.check", target)
 		value, exist := n.events.Load(target)
 		if exist == false {
 			return nil, gen.ErrEventUnknown
 		}
 		event := value.(*eventOwner)
+		lib.VerifPoint("link.add", target)
 		if err := n.targetManager.AddMonitor(pid, target); err != nil {
 			return nil, err
 		}
 
+		lib.VerifPoint("sub.snapshot", target)
 		if event.last != nil {
 			// load last N events
 			item := event.last.Item()
@@ -1080,6 +1117,7 @@ func (n *node) RouteMonitorEvent(pid gen.PID, target gen.Event) ([]gen.MessageEv
 			}
 		}
 
+		lib.VerifPoint("sub.count", target)
 		c := atomic.AddInt32(&event.consumers, 1)
 		if event.notify == false || c > 1 {
 			return lastEventMessages, nil
@@ -1123,17 +1161,20 @@ func (n *node) RouteDemonitorEvent(pid gen.PID, target gen.Event) error {
 
 	if n.name == target.Node {
 		// local target
+		lib.VerifPoint("unlink.check", target)
 		value, exist := n.events.Load(target)
 		if exist == false {
 			return gen.ErrEventUnknown
 		}
 
+		lib.VerifPoint("unlink.remove", target)
 		if err := n.targetManager.RemoveMonitor(pid, target); err != nil {
 			return err
 		}
 
 		// notify producer
 		event := value.(*eventOwner)
+		lib.VerifPoint("sub.count", target)
 		c := atomic.AddInt32(&event.consumers, -1)
 		if event.notify == false || c > 0 {
 			return nil
@@ -1176,6 +1217,7 @@ func (n *node) RouteTerminatePID(target gen.PID, reason error) error {
 		PID:    target,
 		Reason: reason,
 	}
+	lib.VerifPoint("term.drain", target)
 	linkConsumers, monitorConsumers := n.targetManager.CleanupTarget(target)
 
 	for _, pid := range linkConsumers {
@@ -1225,6 +1267,7 @@ func (n *node) RouteTerminateProcessID(target gen.ProcessID, reason error) error
 		ProcessID: target,
 		Reason:    reason,
 	}
+	lib.VerifPoint("term.drain", target)
 	linkConsumers, monitorConsumers := n.targetManager.CleanupTarget(target)
 
 	for _, pid := range linkConsumers {
@@ -1274,6 +1317,7 @@ func (n *node) RouteTerminateEvent(target gen.Event, reason error) error {
 		Event:  target,
 		Reason: reason,
 	}
+	lib.VerifPoint("term.drain", target)
 	linkConsumers, monitorConsumers := n.targetManager.CleanupTarget(target)
 
 	for _, pid := range linkConsumers {
@@ -1323,6 +1367,7 @@ func (n *node) RouteTerminateAlias(target gen.Alias, reason error) error {
 		Alias:  target,
 		Reason: reason,
 	}
+	lib.VerifPoint("term.drain", target)
 	linkConsumers, monitorConsumers := n.targetManager.CleanupTarget(target)
 
 	for _, pid := range linkConsumers {
